@@ -940,7 +940,7 @@ def run(ctx):
     global PACER
     PACER = Pacer(ctx.nshards)
     groups = {}
-    for i in ctx.cases(300, 20000):  # DESIGN asked 30 k; 30 k took 731 s at load 70 on the shared box, budget is 600 s
+    for i in ctx.cases(300, 20000):  # DESIGN asked 30 k (731 s at load 70-87 on the shared box); 20 k runs in ~3 min, budget 10 min
         s = gen_session(ctx.case_rng(i), i, ctx.nshards)
         groups.setdefault(s["reactor"], []).append(s)
     for reactor in REACTORS:
